@@ -97,8 +97,16 @@ class Reader:
                 # a dot directly followed by non-space inside a bareword position is still a dot
                 if structured:
                     raise RefErr('dot in structured list')
+                if first and i == (open_i + (2 if structured else 1)):
+                    raise RefErr('dot directly after open paren')
                 if first:
-                    raise RefErr('dot after open paren')
+                    # quirk mirrored from the reader: "( . )" with layout before the dot reads as an empty list,
+                    # anything else after a leading dot is an error
+                    k = self.skip(i + 1)
+                    if k < self.n and self.eq(k, 0x29):
+                        self.depth -= 1
+                        return ('list', open_i, k, [], ('none',), structured), k + 1
+                    raise RefErr('dot as first element')
                 if tail is not None or self.in_tail:
                     raise RefErr('multiple dots')
                 i = self.skip(i + 1)
@@ -270,7 +278,7 @@ class ReaderLocs(Harness):
                    'bytes >= 0x80 inside decimal-looking tokens end the path as `bound` (from_utf8_lossy model is ASCII only)',
                    'decimal literals are converted by a model of BigInt::from_str_radix (digits and sign only)']
     outside = 'inputs longer than the stated length; locations attached later by the compiler'
-    lengths = {'quick': (0, 1, 2, 3), 'thorough': (0, 1, 2, 3, 4)}
+    lengths = {'quick': (0, 1, 2, 3, 4), 'thorough': (0, 1, 2, 3, 4, 5)}
     loop_bound = 400
     max_paths = 2000000
     panic_is_violation = True
@@ -280,7 +288,11 @@ class ReaderLocs(Harness):
 
     def cases(self, tier):
         for n in self.lengths[tier]:
-            if n >= 3:
+            if n >= 5:
+                for name, _ in self.FIRST:
+                    for name2, _ in self.FIRST:
+                        yield dict(n=n, first=name, second=name2)
+            elif n >= 3:
                 for name, _ in self.FIRST:
                     yield dict(n=n, first=name)
             else:
@@ -295,11 +307,11 @@ class ReaderLocs(Harness):
     def inputs_json(self, case, inp, model):
         return dict(b=ev_bytes(model, inp['b']))
 
-    def first_constraint(self, case, b0):
-        if case.get('first') is None:
+    def first_constraint(self, case, b0, key='first'):
+        if case.get(key) is None:
             return z3.BoolVal(True)
         d = dict(self.FIRST)
-        vals = d[case['first']]
+        vals = d[case[key]]
         if vals is not None:
             return z3.Or(*[b0 == v for v in vals])
         allv = [v for _, vs in self.FIRST if vs for v in vs] + [9]
@@ -311,6 +323,8 @@ class ReaderLocs(Harness):
             eng.assume(b.e != 9)
         if bs:
             eng.assume(self.first_constraint(case, bs[0].e))
+        if len(bs) > 1:
+            eng.assume(self.first_constraint(case, bs[1].e, 'second'))
         start = rich.loc(1, 1)
         it = IterV([Cell(b) for b in bs], owned=True)
         res = eng.call('sexp::parse_sexp', [start, it])
@@ -388,11 +402,14 @@ class ReaderLocs(Harness):
         alphabet = [0x28, 0x29, 0x22, 0x27, 0x23, 0x3b, 10, 32, 0x2e, 0x5c, 0x30, 0x31, 0x2d, 0x78, 0x61, 0x71, 0x80]
         vs = []
         d = dict(self.FIRST)
-        for _ in range(10):
+        for _ in range(10 if not case.get('second') else 1):
             v = [rnd.choice(alphabet) for _ in range(n)]
             if n and case.get('first'):
                 vals = d[case['first']]
                 v[0] = rnd.choice(vals) if vals else 0x61
+            if n > 1 and case.get('second'):
+                vals = d[case['second']]
+                v[1] = rnd.choice(vals) if vals else 0x61
             vs.append(v)
         return [dict(b=v) for v in vs]
 
